@@ -98,6 +98,11 @@ func c13Gen(r *rand.Rand, tier string) []Case {
 	var out []Case
 	// year boundaries of interest (unix seconds): 2023→2024 (leap), 2024→2025, 2099→2100 (not leap), 1999→2000 (leap)
 	bounds := []int64{1704067200, 1735689600, 4102444800, 946684800, 1709164800 /* 2024-02-29 */}
+	// fixed case: the reward coefficient is negative for a while (validation accepts it), then positive again
+	out = append(out, Case{"reset 1 7800000000000000000 0 100000000000000000000000000000 20000000000000000000000000000",
+		"blk 1700000000000 4000000000000000000000000000 -", "blk 1700000006000 4000000000000000000000000000 -", "setcoef -1000000000000000000",
+		"blk 1700000012000 4000000000000000000000000000 -", "blk 1700003600000 4000000000000000000000000000 -", "setcoef 7800000000000000000",
+		"blk 1700003606000 4000000000000000000000000000 -", "blk 1700003612000 4000000000000000000000000000 -"})
 	// fixed case: minting, switched off and on again by governance proposals (and, for comparison, through the keeper)
 	for _, via := range []string{" # via=gov", ""} {
 		out = append(out, Case{"reset 1 7800000000000000000 0 100000000000000000000000000000 20000000000000000000000000000",
@@ -162,6 +167,9 @@ func c13Gen(r *rand.Rand, tier string) []Case {
 				} else {
 					c = append(c, fmt.Sprintf("enable %d", en))
 				}
+			}
+			if r.Intn(12) == 0 {
+				c = append(c, fmt.Sprintf("setcoef %s", pick(r, []*big.Int{new(big.Int).Mul(big.NewInt(78), e(17)), new(big.Int).Neg(e(18)), big.NewInt(0), e(18), new(big.Int).Neg(big.NewInt(1))})))
 			}
 			if r.Intn(15) == 0 {
 				maxS = new(big.Int).Add(maxS, new(big.Int).Rand(r, e(24)))
@@ -249,6 +257,13 @@ func c13Exec(c Case) (outs []string, fails []Failure, tags []string) {
 				k.SetParams(ctx, p)
 			}
 			out = "ok"
+		case "setcoef":
+			// governance changes the reward coefficient mid-history (validation accepts any decimal, negative ones included)
+			p := k.GetParams(ctx)
+			p.RewardCoefficient = sdk.NewDecFromBigIntWithPrec(mustBig(f[1]), 18)
+			k.SetParams(ctx, p)
+			cfgCoef = p.RewardCoefficient
+			out = "ok"
 		case "setmax":
 			k.SetMaxSupply(ctx, sdk.NewCoin("aISLM", sdkmath.NewIntFromBigInt(mustBig(f[1]))))
 			out = "ok"
@@ -330,11 +345,15 @@ func c13Exec(c Case) (outs []string, fails []Failure, tags []string) {
 				// negative, with something bonded: cannot happen under CometBFT / sane params; the code then mints
 				// nothing and keeps the old reference).  A backwards step with nothing bonded has the amount 0 and
 				// is a reference like any other block.
+				// "consecutive block timestamps": every block processed while enabled becomes the reference of the next one,
+				// also when the formula amount is negative (a negative coefficient, a clock running backwards): nothing is
+				// minted then, but the next block's elapsed time is still measured from this one
 				negative := lastEnabledBlockTime != 0 && formula().Sign() < 0
-				if !negative {
-					lastEnabledBlockTime = t
+				if negative && bank.minted.Sign() != 0 {
+					fl("C13:minted-on-negative-amount", fmt.Sprintf("the formula amount is negative and %s were minted", bank.minted))
 				}
-				if !negative && k.GetPrevBlockTS(ctx).BigInt().Cmp(big.NewInt(t)) != 0 && preSupply.Cmp(maxS) <= 0 {
+				lastEnabledBlockTime = t
+				if k.GetPrevBlockTS(ctx).BigInt().Cmp(big.NewInt(t)) != 0 && (preSupply.Cmp(maxS) <= 0 || negative) {
 					fl("C13:reference-not-advanced", fmt.Sprintf("enabled block at %d left the stored reference at %s: the next block's elapsed time will not be measured from this block", t, k.GetPrevBlockTS(ctx)))
 				}
 			} else {
